@@ -160,7 +160,7 @@ P["C03"] = {
     "obligations": op_obl(["poll.not_started", "poll.running.none", "poll.running.same", "poll.running.other", "update.single", "update.multi.live", "process.running", "poll.done.restart", "poll_next.running"]) + [
         K("c03.blocked.wake.1", "uring_mod.rs", U + "c03_blocked_wake_1", "wake_blocked_futures, 1 blocked future, all counters/sizes: woken iff a slot is free, else still registered", ["io_uring::Shared::wake_blocked_futures"], bounded="blocked list length 1"),
         K("c03.blocked.wake.2", "uring_mod.rs", U + "c03_blocked_wake_2", "wake_blocked_futures, 2 blocked futures: wakes min(free, 2), each future woken exactly once or still registered", ["io_uring::Shared::wake_blocked_futures"], bounded="blocked list length 2"),
-        K("c03.enter.wakes", "uring_mod.rs", U + "c03_enter_wakes", "Shared::enter: after a successful io_uring_enter that consumed k entries, a blocked future is woken iff a slot is free", ["io_uring::Shared::enter", "io_uring::Shared::wake_blocked_futures"]),
+        K("c03.enter.wakes", "uring_mod.rs", U + "c03_enter_wakes", "Shared::enter: every kernel entry that returns Ok to Ring::poll - also one that merely timed out or was interrupted - runs wake_blocked_futures once, after the system call (a future blocked on a full queue is woken by a subsequent Ring::poll once there is room, even if nothing completes); hard errors go to the caller", ["io_uring::Shared::enter", "io_uring::Shared::wake_blocked_futures"]),
     ],
 }
 P["C06"] = {
